@@ -14,7 +14,7 @@ CHECKS = {
          "Tie to code: rank_chop compared exactly with the model on integer spectra, and every rank decision taken inside TT(...) is recorded and replayed through the model in exact rationals. "
          "Value level: the sweeps to_tt / mat_to_tt are modelled with the SVD as an oracle parameter (Decomp.toTT / toTTM); theorems toTT_exact / toTTM_exact: with any oracle satisfying U·W = C the train reproduces every in-range entry of the array; tie: the real constructor is run with an exact integer oracle installed from outside and compared core by core with the same definition. "
          "The Frobenius bound of the whole sweep is the abstract theorem ttsvd_sweep_bound (any real/complex inner-product space: if each step is the orthogonal projection of the current partial approximation onto a subspace of the previous one and discards tailE s (rankChop s (ep·‖x_k‖)), and (d-1)·ep² <= eps², then ‖A - Â‖ <= eps·‖A‖); that the code's truncated SVD steps ARE such projections is the SVD contract (orthonormal factors), assumed, monitored per call, and the bound itself is checked by the property's oracle on every constructed object.",
-         TB + "SVD contract (tn.linalg.svd) assumed and monitored per call; the identification of the code's sweep with the nested-projection scheme of ttsvd_sweep_bound is by that contract, not by a core-level model of the sweep; float roundoff outside the model", "§5 C01"),
+         TB + "SVD contract (tn.linalg.svd) assumed and monitored per call; on the core-level model of the sweep (Decomp.toTT / toTTR, tied exactly) the squared error equals the sum of the discarded energies (toTT_errSq, toTTR_errSq) for every oracle whose kept columns are orthonormal and orthogonal to the residual, and every bond obeys its rmax cap for any oracle (toTTR_bondRanks_le); float roundoff outside the model", "§5 C01"),
  "C03": ("proof",
          "Lean theorems for every order / mode / rank profile / core value over any commutative ring: +, -, * (incl. torch-style broadcasting of the right operand), unary minus, scalar +,-,*,/ from either side, Kronecker product, and the factories (ones, zeros, eye, rank-1, meshgrid) equal the dense expression entry for entry; ranks add / multiply by definition of the modelled cores. "
          "Tie: exact core-by-core comparison of the model with the real code on structured integer cases + independent dense oracle, dtype and rank-structure checks on every case.",
@@ -39,7 +39,7 @@ CHECKS = {
          "Lean theorems (M-trunc, shared with C01, restated for the call pattern of round_tt): the rank chosen at every bond is >= 1, <= the old rank, <= rmax; when rmax is not binding the discarded energy is within the per-bond allowance (ties included); an unfolding whose tail singular values vanish is compressed to its true rank for every eps > 0; the d-1 allowances sum to eps². "
          "Tie: every rank decision taken inside round() is recorded and replayed through the model in exact rationals; the oracle checks error bound, the three rank bounds (old rank, rmax, exact unfolding rank), shape, and bit-identity of the operand afterwards, on inflated / rank-deficient / badly scaled / zero / generic operands. "
          "Value level: lr_orthogonal / round_tt for tensors and TT-matrices modelled with QR/SVD oracles (lrOrth_full, roundTT_full, lrOrthM_full, roundTTM_full: exact factorisations => same tensor, ranks chain, modes kept); the real sweeps run with exact integer oracles are compared core by core with the models.",
-         TB + "QR and SVD contracts assumed (SVD monitored per call); the orthonormality of the frames that makes the per-bond errors add up is not formalised; roundoff outside the model", "§5 C02"),
+         TB + "the error identity of the whole sweep IS a theorem of the sweep model (roundTT_errSq: squared error = sum of the discarded energies) under the oracle contract 'QR returns orthonormal columns, the truncated SVD keeps orthonormal rows orthogonal to the residual'; that LAPACK's factorisations satisfy this contract is trusted (SVD monitored per call); roundoff outside the model", "§5 C02"),
  "C05": ("proof",
          "Lean theorems over the structural model M-shape: whatever the validating constructor accepts is well formed (cores all 3-d or all 4-d, ranks chain, boundary ranks 1, N/M/R/shape/is_ttm describe exactly those cores, full() shape = M+N); set_core and reduce_dims preserve well-formedness; hence every object in every store reachable by ANY finite history of constructor / set_core / reduce_dims calls is well formed (reachable_wf, induction over histories). "
          "Tie: random walks over ~40 public operations incl. solvers with guesses from the store; after each call every live object is checked against the property directly, and every constructor / set_core / reduce_dims call observed during the walks is replayed through the model (exact comparison of kind, N, M, R, shape, or exception class).",
